@@ -142,6 +142,28 @@ def canon(state, keys_pos=("pos", "lastPos"), cfgs=("lastE", "lastRes", "calcAto
     return out
 
 
+def labels_equiv(before, deflab, exp, obs):
+    """label arrays agree on labels that existed before / the configured default and induce the same partition
+    otherwise (the number a fresh label gets is not part of the property)"""
+    if set(exp) != set(obs):
+        return False
+    for m in exp:
+        e, o = exp[m], obs[m]
+        if len(e) != len(o):
+            return False
+        old = set(before.get(m, [])) | {deflab.get(m)}
+        for a, b in zip(e, o):
+            if (a in old or b in old) and a != b:
+                return False
+            if (a >= 0) != (b >= 0):
+                return False
+        for i in range(len(e)):
+            for j in range(len(e)):
+                if (e[i] == e[j]) != (o[i] == o[j]):
+                    return False
+    return True
+
+
 def observed(P, spec_state=None):
     st = P.state()
 
@@ -252,6 +274,8 @@ def replay(beh):
                 o[f] = alts[f][i]
             oc = canon(o)
             diff = [k for k in wc if wc[k] != oc[k]]
+            if "labels" in diff and labels_equiv(t[0]["s"]["labels"], {m: beh["mobj"][m]["defLabel"] for m in beh["mobj"]}, wc["labels"], oc["labels"]):
+                diff.remove("labels")
             if best is None or len(diff) < len(best):
                 best = diff
             if not diff:
